@@ -806,15 +806,27 @@ def handwritten_eq_problem(rc) -> str | None:
         for n in ast.walk(v):
             if isinstance(n, (ast.BoolOp, ast.IfExp, ast.Lambda)) or (isinstance(n, ast.UnaryOp) and isinstance(n.op, ast.Not)):
                 return f'conjunct with nested logic: {ast.unparse(v)[:80]!r}'
-    for g in dataclasses.fields(rc):
-        hits = [v for v in conj.values if any(is_self_attr(n) == g.name for n in ast.walk(v))]
-        both = [
-            v for v in hits
-            if any(isinstance(n, ast.Attribute) and isinstance(n.value, ast.Name) and n.value.id == 'other' and n.attr == g.name for n in ast.walk(v))
-        ]
-        if not both:
-            return f'field {g.name} is not compared (no conjunct reads both self.{g.name} and other.{g.name})'
+    missing = [g.name for g in dataclasses.fields(rc) if g.name not in handwritten_eq_fields(rc)]
+    if missing:
+        return f'fields {missing} are not compared (no conjunct reads both self.<field> and other.<field>)'
     return None
+
+
+def handwritten_eq_fields(rc) -> set[str]:
+    """The dataclass fields that some conjunct of the hand-written `return a and b and ...` reads on both sides."""
+    out = set()
+    try:
+        ret = [n for n in method_ast(rc, '__eq__').body if isinstance(n, ast.Return) and isinstance(n.value, ast.BoolOp)]
+    except Tie:
+        return out
+    for r in ret[-1:]:
+        for v in r.value.values:
+            for g in dataclasses.fields(rc):
+                on_self = any(is_self_attr(n) == g.name for n in ast.walk(v))
+                on_other = any(isinstance(n, ast.Attribute) and isinstance(n.value, ast.Name) and n.value.id == 'other' and n.attr == g.name for n in ast.walk(v))
+                if on_self and on_other:
+                    out.add(g.name)
+    return out
 
 
 def static_record_class(c, field: str):
@@ -866,9 +878,12 @@ def static_equality_scan(ops, field_info):
                             if why:
                                 problems.append(f'{k.__name__}.{name}: hand-written comparison on a dataclass stored in the static field {c.__name__}.{f.name}: {why}')
                 rrows = []
+                handwritten = '__eq__' in _defines_in_source(rc, {'__eq__'})
+                in_eq = handwritten_eq_fields(rc) if handwritten else None
                 for g in dataclasses.fields(rc):
                     gc = g.compare is True
-                    rrows.append((g.name, gc))
+                    # the flag regenerated into Gen/FieldTable.v: the field takes part in the equality IN USE
+                    rrows.append((g.name, gc and (in_eq is None or g.name in in_eq)))
                     if not gc:
                         problems.append(
                             f'{rc.__name__}.{g.name}: declared compare={g.compare!r} but {rc.__name__} is stored in the static field '
